@@ -335,6 +335,14 @@ def check_coherent(mbi, model, case, tag, solver, viol, probes):
     if not np.isfinite(total) or total <= 0:
         viol.append(Violation('c08-total', 'c08-total:' + solver, 'model.total = %r (%s)' % (model.total, tag)).as_dict())
         return
+    # the Kronecker-query path first, before the check itself re-runs anything on the returned model:
+    # identity on one attribute, all-ones rows elsewhere = a one-way marginal
+    j = len(model.cliques) % len(attrs)
+    mats = [np.eye(case['sizes'][i]) if i == j else np.ones((1, case['sizes'][i])) for i in range(len(attrs))]
+    kd, v = guard_repo(lambda: np.asarray(model.krondot(mats), dtype=float), 'krondot')
+    if v:
+        viol.append(v.as_dict())
+        return
     if hasattr(model, 'marginals'):
         bp, v = guard_repo(lambda: model.belief_propagation(model.potentials), 'belief_propagation')
         if v:
@@ -363,14 +371,13 @@ def check_coherent(mbi, model, case, tag, solver, viol, probes):
             viol.append(v.as_dict())
             return
         answers.append(('project', q, np.asarray(a.values, dtype=float)))
-    # the Kronecker-query path: identity on one attribute, all-ones rows elsewhere = a one-way marginal
-    j = len(model.cliques) % len(attrs)
-    mats = [np.eye(case['sizes'][i]) if i == j else np.ones((1, case['sizes'][i])) for i in range(len(attrs))]
-    kd, v = guard_repo(lambda: np.asarray(model.krondot(mats), dtype=float), 'krondot')
+    tops = [np.asarray(model.potentials[cl].values, dtype=float) for cl in model.cliques]
+    top = sum(float(np.max(t[np.isfinite(t)])) if np.isfinite(t).any() else 0.0 for t in tops)
+    lz, v = guard_repo(lambda: float(model.belief_propagation(model.potentials, logZ=True)), 'belief_propagation')
     if v:
         viol.append(v.as_dict())
         return
-    if theta_mag(model) * len(model.cliques) < 600:     # krondot exponentiates the raw parameters (and logZ) by construction: only where exp() cannot overflow
+    if top < 600 and abs(lz) < 600 and all(float(np.max(np.abs(t[np.isfinite(t)]), initial=0)) < 600 for t in tops):     # krondot exponentiates the raw parameters (and logZ) by construction: only where exp() cannot overflow
         answers.append(('krondot', [attrs[j]], kd.reshape(-1)))
     for kind, q, arr in answers:
         if not np.all(np.isfinite(arr)):
